@@ -190,3 +190,150 @@ Proof.
   - rewrite (slice_mid' (word_of_N o) (word_of_N w)) by apply blen_word. apply dec_u64_word; exact Hw.
 Qed.
 
+
+(** ** events *)
+Definition wf_event (e : event) : Prop :=
+  blen (encode_event e) < 2 ^ 62 /\
+  match e with
+  | EDelegated d _ (Some a) | EUndelegated d _ (Some a) | ERedelegated d _ _ (Some a) =>
+      length d = 20%nat /\ a < 2 ^ 256
+  | EWithdrew d _ => length d = 20%nat
+  | EVoted d pid opt => length d = 20%nat /\ pid < 2 ^ 64 /\ opt < 2 ^ 32
+  | EVotedW d pid os => length d = 20%nat /\ pid < 2 ^ 64 /\ Forall opt_in_range os
+  | _ => False
+  end.
+
+Ltac reassoc_to t := match goal with |- context [?D] => replace D with t by (rewrite <- ?app_assoc; reflexivity) end.
+
+Lemma unpack_delegated_like (mk : bytes -> bytes -> option N -> event) k d v a :
+  (forall D, unpack_event k D =
+     match word_at D 0, dec_string D 32, word_at D 64 with
+     | Some w0, Some v, Some w2 => Some (mk (dec_addr w0) v (Some (dec_u256 w2)))
+     | _, _, _ => None
+     end) ->
+  length d = 20%nat -> a < 2 ^ 256 ->
+  blen (enc_addr d ++ word_of_N 96 ++ word_of_N a ++ enc_string v) < 2 ^ 62 ->
+  unpack_event k (enc_addr d ++ word_of_N 96 ++ word_of_N a ++ enc_string v) = Some (mk d v (Some a)).
+Proof.
+  intros Hk Hd Ha Hb. rewrite Hk. set (D := enc_addr d ++ word_of_N 96 ++ word_of_N a ++ enc_string v) in *.
+  assert (H0 : word_at D 0 = Some (enc_addr d)).
+  { apply (word_at_mid [] (enc_addr d)); [reflexivity | apply blen_enc_addr; exact Hd]. }
+  assert (H1 : word_at D 32 = Some (word_of_N 96)).
+  { apply (word_at_mid (enc_addr d) (word_of_N 96)); [apply blen_enc_addr; exact Hd | apply blen_word]. }
+  assert (H2 : word_at D 64 = Some (word_of_N a)).
+  { unfold D. rewrite app_assoc. apply word_at_mid; [|apply blen_word].
+    rewrite blen_app, blen_word, blen_enc_addr by exact Hd. reflexivity. }
+  assert (Hs : dec_string D 32 = Some v).
+  { apply (dec_string_at D 32 96 v (enc_addr d ++ word_of_N 96 ++ word_of_N a) []); [exact H1| | |exact Hb].
+    - unfold D. rewrite app_nil_r, <- !app_assoc. reflexivity.
+    - rewrite !blen_app, !blen_word, blen_enc_addr by exact Hd. reflexivity. }
+  rewrite H0, Hs, H2, dec_addr_enc, dec_u256_word by assumption. reflexivity.
+Qed.
+
+Theorem unpack_encode e : wf_event e -> unpack_event (kind_of_event e) (encode_event e) = Some e.
+Proof.
+  intros [Hb Hw]. destruct e as [d v [a|] | d v [a|] | d s t [a|] | d v | d pid opt | d pid os]; try contradiction;
+    cbn [kind_of_event encode_event] in *.
+  - destruct Hw as [Hd Ha]. apply (unpack_delegated_like EDelegated KDelegated); auto.
+  - destruct Hw as [Hd Ha]. apply (unpack_delegated_like EUndelegated KUndelegated); auto.
+  - (* Redelegated *)
+    destruct Hw as [Hd Ha]. cbn [unpack_event].
+    set (D := enc_addr d ++ word_of_N 128 ++ word_of_N (128 + 32 + padded_len s) ++ word_of_N a ++ enc_string s ++ enc_string t) in *.
+    assert (H0 : word_at D 0 = Some (enc_addr d)).
+    { apply (word_at_mid [] (enc_addr d)); [reflexivity | apply blen_enc_addr; exact Hd]. }
+    assert (H1 : word_at D 32 = Some (word_of_N 128)).
+    { apply (word_at_mid (enc_addr d) (word_of_N 128)); [apply blen_enc_addr; exact Hd | apply blen_word]. }
+    assert (H2 : word_at D 64 = Some (word_of_N (128 + 32 + padded_len s))).
+    { unfold D. rewrite app_assoc. apply word_at_mid; [|apply blen_word].
+      rewrite blen_app, blen_word, blen_enc_addr by exact Hd. reflexivity. }
+    assert (H3 : word_at D 96 = Some (word_of_N a)).
+    { unfold D. rewrite (app_assoc (enc_addr d)), (app_assoc (enc_addr d ++ word_of_N 128)). apply word_at_mid; [|apply blen_word].
+      rewrite !blen_app, !blen_word, blen_enc_addr by exact Hd. reflexivity. }
+    assert (Hs : dec_string D 32 = Some s).
+    { apply (dec_string_at D 32 128 s (enc_addr d ++ word_of_N 128 ++ word_of_N (128 + 32 + padded_len s) ++ word_of_N a) (enc_string t));
+        [exact H1| | |exact Hb].
+      - unfold D. rewrite <- !app_assoc. reflexivity.
+      - rewrite !blen_app, !blen_word, blen_enc_addr by exact Hd. reflexivity. }
+    assert (Ht : dec_string D 64 = Some t).
+    { apply (dec_string_at D 64 (128 + 32 + padded_len s) t
+               (enc_addr d ++ word_of_N 128 ++ word_of_N (128 + 32 + padded_len s) ++ word_of_N a ++ enc_string s) []);
+        [exact H2| | |exact Hb].
+      - unfold D. rewrite app_nil_r, <- !app_assoc. reflexivity.
+      - rewrite !blen_app, !blen_word, blen_enc_string, blen_enc_addr by exact Hd. lia. }
+    rewrite H0, Hs, Ht, H3, dec_addr_enc, dec_u256_word by assumption. reflexivity.
+  - (* Withdrew *)
+    cbn [unpack_event]. set (D := enc_addr d ++ word_of_N 64 ++ enc_string v) in *.
+    assert (H0 : word_at D 0 = Some (enc_addr d)).
+    { apply (word_at_mid [] (enc_addr d)); [reflexivity | apply blen_enc_addr; exact Hw]. }
+    assert (H1 : word_at D 32 = Some (word_of_N 64)).
+    { apply (word_at_mid (enc_addr d) (word_of_N 64)); [apply blen_enc_addr; exact Hw | apply blen_word]. }
+    assert (Hs : dec_string D 32 = Some v).
+    { apply (dec_string_at D 32 64 v (enc_addr d ++ word_of_N 64) []); [exact H1| | |exact Hb].
+      - unfold D. rewrite app_nil_r, <- !app_assoc. reflexivity.
+      - rewrite !blen_app, !blen_word, blen_enc_addr by exact Hw. reflexivity. }
+    rewrite H0, Hs, dec_addr_enc by assumption. reflexivity.
+  - (* Voted *)
+    destruct Hw as [Hd [Hp Ho]]. cbn [unpack_event]. set (D := enc_addr d ++ word_of_N pid ++ word_of_N opt) in *.
+    assert (H0 : word_at D 0 = Some (enc_addr d)).
+    { apply (word_at_mid [] (enc_addr d)); [reflexivity | apply blen_enc_addr; exact Hd]. }
+    assert (H1 : word_at D 32 = Some (word_of_N pid)).
+    { apply (word_at_mid (enc_addr d) (word_of_N pid)); [apply blen_enc_addr; exact Hd | apply blen_word]. }
+    assert (H2 : word_at D 64 = Some (word_of_N opt)).
+    { unfold D. rewrite app_assoc. rewrite <- (app_nil_r (word_of_N opt)).
+      apply (word_at_mid (enc_addr d ++ word_of_N pid) (word_of_N opt) []); [|apply blen_word].
+      rewrite blen_app, blen_word, blen_enc_addr by exact Hd. reflexivity. }
+    rewrite H0, H1, H2, dec_addr_enc, dec_u64_word, dec_u32_word by assumption. reflexivity.
+  - (* VotedWeighted *)
+    destruct Hw as [Hd [Hp Hr]]. cbn [unpack_event].
+    change (flat_map (fun ow : N * N => word_of_N (fst ow) ++ word_of_N (snd ow)) os) with (flat_map enc_opt os) in *.
+    set (D := enc_addr d ++ word_of_N pid ++ word_of_N 96 ++ word_of_N (N.of_nat (length os)) ++ flat_map enc_opt os) in *.
+    assert (H0 : word_at D 0 = Some (enc_addr d)).
+    { apply (word_at_mid [] (enc_addr d)); [reflexivity | apply blen_enc_addr; exact Hd]. }
+    assert (H1 : word_at D 32 = Some (word_of_N pid)).
+    { apply (word_at_mid (enc_addr d) (word_of_N pid)); [apply blen_enc_addr; exact Hd | apply blen_word]. }
+    assert (H2 : word_at D 64 = Some (word_of_N 96)).
+    { unfold D. rewrite app_assoc. apply word_at_mid; [|apply blen_word].
+      rewrite blen_app, blen_word, blen_enc_addr by exact Hd. reflexivity. }
+    assert (HD : blen D = 128 + 64 * N.of_nat (length os)).
+    { unfold D. rewrite !blen_app, !blen_word, blen_enc_addr, blen_enc_opts by exact Hd. lia. }
+    assert (Ho : dec_opts D 64 = Some os).
+    { unfold dec_opts, length_prefix. rewrite H2, be_N_word by (vm_compute; reflexivity).
+      destruct (blen D <? 96 + 32) eqn:E1; [apply N.ltb_lt in E1; lia|].
+      rewrite size_le_63 by (vm_compute; reflexivity).
+      replace (96 + 32 - 32) with 96 by reflexivity.
+      assert (Hs : slice D 96 32 = word_of_N (N.of_nat (length os))).
+      { unfold D. rewrite (app_assoc (enc_addr d)), (app_assoc (enc_addr d ++ word_of_N pid)).
+        apply slice_mid'; [|apply blen_word]. rewrite !blen_app, !blen_word, blen_enc_addr by exact Hd. reflexivity. }
+      assert (Hn : N.of_nat (length os) < 2 ^ 256).
+      { assert (2 ^ 62 < 2 ^ 256) by (apply N.pow_lt_mono_r; lia). lia. }
+      rewrite Hs, be_N_word by exact Hn.
+      rewrite size_le_63 by lia.
+      destruct (blen D <? 96 + 32 + N.of_nat (length os)) eqn:E2; [apply N.ltb_lt in E2; lia|].
+      assert (Hsk : skipn (N.to_nat (96 + 32)) D = flat_map enc_opt os).
+      { unfold D. rewrite (app_assoc (enc_addr d)), (app_assoc (enc_addr d ++ word_of_N pid)),
+          (app_assoc ((enc_addr d ++ word_of_N pid) ++ word_of_N 96)).
+        replace (N.to_nat (96 + 32)) with (length (((enc_addr d ++ word_of_N pid) ++ word_of_N 96) ++ word_of_N (N.of_nat (length os)))).
+        - apply skipn_app_exact.
+        - rewrite !app_length, !word_length. unfold enc_addr. rewrite app_length, zeros_length, Hd. reflexivity. }
+      rewrite Hsk, blen_enc_opts.
+      destruct (64 * N.of_nat (length os) <? 32 * N.of_nat (length os)) eqn:E3; [apply N.ltb_lt in E3; lia|].
+      rewrite Nat2N.id.
+      rewrite <- (app_nil_r (flat_map enc_opt os)).
+      apply (dec_opt_elems_enc os [] 0 []); [reflexivity | exact Hr]. }
+    rewrite H0, H1, Ho, dec_addr_enc, dec_u64_word by assumption. reflexivity.
+Qed.
+
+Lemma encode_nonempty e : encode_event e <> [].
+Proof. destruct e as [d v a | d v a | d s t a | d v | d pid opt | d pid os]; cbn; discriminate. Qed.
+
+(** [ParseLog] on the canonical log of a well-formed event returns the event *)
+Theorem parse_log_encode e : wf_event e -> parse_log (kind_of_event e) 1 (encode_event e) = Some e.
+Proof.
+  intro W. unfold parse_log. pose proof (encode_nonempty e) as NE.
+  destruct (encode_event e) as [|b r] eqn:E; [contradiction|]. rewrite <- E, (unpack_encode e W). reflexivity.
+Qed.
+
+(** a topic mismatch (an extra topic) or truncated data never yields an event: spot lemma used
+    by the non-vacuity examples *)
+Lemma parse_log_extra_topic k d : parse_log k 2 d = None.
+Proof. unfold parse_log. destruct (match d with [] => _ | _ => _ end); reflexivity. Qed.
